@@ -68,7 +68,7 @@ func H_C12_gated_same_broker() {
 	case 4:
 		w.FlushAll(ctx)
 	}
-	verifAssert(verifHeldLocks() == 0, "C12.gated.locks-released")
+	verifAssert(verifNoLocksHeld(), "C12.gated.locks-released")
 	b.SetSuccessThreshold("t", 0)
 	verifReach("C12.gated.end")
 }
